@@ -25,16 +25,16 @@
     - Not modelled: latency windows / server name options (cache created
       without them), UpdateSize (json sizes), nil [*gnmi.Update] elements
       inside [Notification.Update] (gnmiUpdate dereferences [n.Update[0]] on
-      its first line: always a panic), floating point / decimal / leaf-list /
-      any / ascii / proto-bytes typed values (the harness does not generate
-      them; [TJson] stands for every non-scalar value: [value.Equal] is false
-      on it), int64 overflow of timestamps differences (unbounded [Z]).
+      its first line: always a panic), int64 overflow of timestamp differences
+      (unbounded [Z]).  Typed values are those of Value/ValueModel.v (every arm
+      of the oneof, floats as bit patterns) and [value.Equal] is its [equal].
     - A notification carries, beside its protobuf content, [n_pcap]: the
       identity of the backing array of [Prefix.Elem] and its spare capacity
       ([cap - len]), which is what [append(prefix.GetElem(), ...)] in
       toDeleteNotification depends on (DEFECT C03_1).  [proto.Equal] ignores
       it. *)
 From Gnmi Require Export Base.Prelude CTree.CTreeModel Path.PathModel.
+From Gnmi Require Import Value.ValueModel.
 Local Open Scope Z_scope.
 
 (** * Defect switches (see /verif/fixes/C03_*.diff)
@@ -55,26 +55,46 @@ Definition defect_c03_1_alias : bool := false.
    [!old.Atomic]. *)
 Definition defect_c03_2_atomic_suppress : bool := false.
 
-(** * Typed values (the subset described above) *)
+(** * Typed values: the model of value/value.go (Value/ValueModel.v)
 
-Inductive tv :=
-| TStr (s : string)
-| TInt (z : Z)
-| TUint (z : Z)
-| TBool (b : bool)
-| TBytes (s : string)
-| TJson (s : string)      (* any non-scalar value *)
-| TNone.                  (* &TypedValue{} : Value == nil *)
+    [u_val : option tv]: [None] is the nil [*TypedValue]; the constructors of
+    [tv] are re-exported under the short names this file used before it
+    adopted ValueModel's type. *)
 
-Definition tv_eqb (a b : tv) : bool :=
+Notation tv := ValueModel.tv.
+Notation TStr := ValueModel.TVString.
+Notation TInt := ValueModel.TVInt.
+Notation TUint := ValueModel.TVUint.
+Notation TBool := ValueModel.TVBool.
+Notation TBytes := ValueModel.TVBytes.
+Notation TJson := ValueModel.TVJson.
+Notation TNone := ValueModel.TVunset.       (* &TypedValue{} : Value == nil *)
+
+(** proto.Equal on floating point fields: [==], except that two NaNs are equal *)
+Definition pf64_eq (a b : N) : bool := f64_eq a b || (f64_is_nan a && f64_is_nan b).
+Definition pf32_eq (a b : N) : bool := f32_eq a b || (f32_is_nan a && f32_is_nan b).
+
+(** proto.Equal on TypedValue (a nil inner Decimal64 / ScalarArray cannot
+    arrive over the wire and is compared structurally) *)
+Fixpoint tv_eqb (a b : tv) {struct a} : bool :=
   match a, b with
-  | TStr x, TStr y => String.eqb x y
-  | TInt x, TInt y => Z.eqb x y
-  | TUint x, TUint y => Z.eqb x y
-  | TBool x, TBool y => Bool.eqb x y
-  | TBytes x, TBytes y => String.eqb x y
-  | TJson x, TJson y => String.eqb x y
-  | TNone, TNone => true
+  | TVnil, TVnil | TVunset, TVunset | TVDecimalNil, TVDecimalNil
+  | TVLeaflistNil, TVLeaflistNil | TVAny, TVAny => true
+  | TVString x, TVString y | TVBytes x, TVBytes y | TVJson x, TVJson y
+  | TVJsonIetf x, TVJsonIetf y | TVAscii x, TVAscii y | TVProtoBytes x, TVProtoBytes y => String.eqb x y
+  | TVInt x, TVInt y => Z.eqb x y
+  | TVUint x, TVUint y => N.eqb x y
+  | TVBool x, TVBool y => Bool.eqb x y
+  | TVFloat x, TVFloat y => pf32_eq x y
+  | TVDouble x, TVDouble y => pf64_eq x y
+  | TVDecimal g p, TVDecimal g' p' => Z.eqb g g' && N.eqb p p'
+  | TVLeaflist x, TVLeaflist y =>
+      (fix go (x y : list tv) {struct x} : bool :=
+         match x, y with
+         | [], [] => true
+         | p :: x', q :: y' => tv_eqb p q && go x' y'
+         | _, _ => false
+         end) x y
   | _, _ => false
   end.
 
@@ -85,16 +105,11 @@ Definition otv_eqb (a b : option tv) : bool :=
   | _, _ => false
   end.
 
-(** value.Equal(a, b) on [*TypedValue] (nil-safe getters on both sides for
-    the kinds modelled here): true only for two scalars of the same kind with
-    the same content. *)
+(** value.Equal(a, b) on [*TypedValue]: ValueModel.equal (total since b28d6aa);
+    a nil pointer on either side is "not equal" *)
 Definition value_equal (a b : option tv) : bool :=
   match a, b with
-  | Some (TStr x), Some (TStr y) => String.eqb x y
-  | Some (TInt x), Some (TInt y) => Z.eqb x y
-  | Some (TUint x), Some (TUint y) => Z.eqb x y
-  | Some (TBool x), Some (TBool y) => Bool.eqb x y
-  | Some (TBytes x), Some (TBytes y) => String.eqb x y
+  | Some x, Some y => match ValueModel.equal x y with Ok true => true | _ => false end
   | _, _ => false
   end.
 
@@ -460,14 +475,22 @@ Definition del_prefix (d : notif) : gpath :=
         (if String.eqb (gp_origin pr) "" && negb (String.eqb po "") then po else gp_origin pr)
         [] [].
 
-(** what toDeleteNotification would build without aliasing: the deleted path *)
+(** pathElems: the elements of a path, the deprecated element encoding
+    converted when the path does not use elem (6b65ac8) *)
+Definition path_elems (p : gpath) : list pelem :=
+  match gp_elems p with
+  | [] => map (fun e => (e, [])) (gp_element p)
+  | es => es
+  end.
+
+(** what toDeleteNotification builds: the deleted path *)
 Definition del_path (d : notif) : gpath :=
   let pr := gp_of_opt (n_prefix d) in
   let ph := match n_upd d with u :: _ => gp_of_opt (u_path u) | [] => empty_gpath end in
   if n_atomic d then GPath "" "" (gp_elems pr) (gp_element pr)
   else match gp_elems pr, gp_elems ph with
        | [], [] => GPath "" "" [] (gp_element pr ++ gp_element ph)
-       | _, _ => GPath "" "" (gp_elems pr ++ gp_elems ph) []
+       | _, _ => GPath "" "" (path_elems pr ++ path_elems ph) []
        end.
 
 (** the suffix elements [append] writes behind the prefix elements, and
@@ -539,6 +562,21 @@ Definition render_group (g : fgroup) : list notif :=
 
 Definition render_feed (gs : list fgroup) : list notif := flat_map render_group gs.
 
+(** the untrimmed index list [ToStrings(prefix, true) ++ ToStrings(suffix, false)]
+    of a notification stored as one unit (suffix: the first update's path,
+    nothing when atomic or when there is no update) *)
+Definition raw_index (n : notif) : list string :=
+  to_strings true (gp_of_opt (n_prefix n)) ++
+  to_strings false (if n_atomic n then empty_gpath
+                    else match n_upd n with u :: _ => gp_of_opt (u_path u) | [] => empty_gpath end).
+
+(** storedUnderMeta (ccc875e) *)
+Definition stored_under_meta (n : notif) : bool :=
+  match raw_index n with
+  | _ :: p1 :: _ => String.eqb p1 md_root
+  | _ => false
+  end.
+
 (** ** gnmiRemove: the removed stored notifications, in model map order *)
 Definition gnmi_remove (t : target) (n : notif) : target * outcome (list notif) :=
   match n_del n with
@@ -560,7 +598,8 @@ Definition gnmi_remove (t : target) (n : notif) : target * outcome (list notif) 
           match removed with
           | [] => (t2, Ok [])
           | _ :: _ =>
-              let k := Z.of_nat (List.length removed) in
+              (* only the removed leaves not indexed under "meta" are counted (ccc875e) *)
+              let k := Z.of_nat (List.length (filter (fun d => negb (stored_under_meta d)) removed)) in
               (add_int (add_int t2 md_leaf_count (- k)) md_del_count k, Ok removed)
           end
       end
@@ -574,14 +613,14 @@ Inductive gres :=
 | GErrs (cls : list N)     (* errlist of a multi notification (non-empty) *)
 | GPanic (why : N).
 
-(** does the deferred checkTimestamp apply: first update's path has Elem and
-    its first name is not "meta" *)
+(** does the deferred checkTimestamp apply (a096aa9): there is an update and
+    the index list has a second element that is not "meta" *)
 Definition tracks_ts (n : notif) : bool :=
   match n_upd n with
-  | u :: _ =>
-      match gp_elems (gp_of_opt (u_path u)) with
-      | e :: _ => negb (String.eqb (fst e) md_root)
-      | [] => false
+  | _ :: _ =>
+      match raw_index n with
+      | _ :: p1 :: _ => negb (String.eqb p1 md_root)
+      | _ => false
       end
   | [] => false
   end.
